@@ -396,6 +396,9 @@ int strToInt(GenState &gs, Node *c) {
 
 int strToIntSilent(Node *c) {
   long v = std::strtol(c->tok.c_str(), NULL, 10);
+  // out-of-range literals were already reported by strToInt; clamp so that the
+  // conversion and the later negation for '-' stay defined
+  if (v > INT_MAX) v = INT_MAX;
   return v;
 }
 
